@@ -1,1 +1,104 @@
-/- C20 — property theorems (to be written) -/
+/-
+  C20 — encoding a tensor in a compression format (U / C / B per rank) loses nothing.
+  Property theorems only; helper lemmas live in FtProofs/Lemmas/Codec.lean.
+-/
+import FtProofs.Lemmas.Codec
+set_option linter.unusedSectionVars false
+set_option linter.unusedSimpArgs false
+set_option linter.unusedVariables false
+namespace Ft
+namespace Codec
+
+/-! ### the per-rank arrays decode, by layout alone, to the content -/
+
+/-- For every descriptor, every tensor inside its extents, with or without an imposed shape:
+    the arrays `Codec.encode` produces decode — read with the extent each rank was actually
+    laid out with — to exactly the tensor's content, and nothing is left over. -/
+theorem decode_encode_eff (d : Nat) (fs : List Fmt) (tsh : List Nat) (ish : Option (List Nat))
+    (t : List (Int × Tree Int Int d))
+    (hfs : fs.length = d + 1) (hwf : wfB (κ := Int) (ν := Int) (d + 1) t = true)
+    (hin : inEff (d + 1) fs tsh ish t = true) :
+    decodesTo d fs (effShape fs tsh ish) (encode d fs tsh ish t).root (encode d fs tsh ish t).cs
+      (encode d fs tsh ish t).ps (content (κ := Int) (ν := Int) (0 : Int) (d + 1) t) = true := by
+  obtain ⟨r, hr⟩ : ∃ r, r = encF d fs tsh ish 0 (List.replicate (d + 1) (0, 0)) t := ⟨_, rfl⟩
+  have hlen := encF_len d fs tsh ish 0 (List.replicate (d + 1) (0, 0)) t
+  rw [← hr] at hlen
+  have hE : encode d fs tsh ish t =
+      ⟨if (fs.headD .U).explicit then [(r.occ : Int)] else [], r.cs, r.ps, r.fibs⟩ := by rw [hr]; rfl
+  have hz1 : zipApp r.cs (List.replicate (d + 1) []) = r.cs := zipApp_replicate_nil_right _ _ hlen.1
+  have hz2 : zipApp r.ps (List.replicate (d + 1) []) = r.ps := zipApp_replicate_nil_right _ _ hlen.2
+  have key := decF_encF d fs tsh ish 0 (List.replicate (d + 1) (0, 0)) t
+    ((((if (fs.headD .U).explicit then [(r.occ : Int)] else []) : List Int).headD 0).toNat)
+    (List.replicate (d + 1) []) (List.replicate (d + 1) []) hfs hwf hin (by simp) (by simp)
+    (by intro h; rw [h, ← hr]; simp [Fmt.explicit])
+  rw [← hr, hz1, hz2] at key
+  rw [hE]
+  simp only [decodesTo, key, hlen.1, hlen.2, Bool.and_eq_true, decide_eq_true_eq, List.all_eq_true]
+  refine ⟨⟨⟨⟨⟨?_, trivial⟩, trivial⟩, trivial⟩, ?_⟩, ?_⟩
+  · cases (fs.headD .U).explicit <;> simp
+  · intro x hx; rw [List.eq_of_mem_replicate hx]; rfl
+  · intro x hx; rw [List.eq_of_mem_replicate hx]; rfl
+
+
+/-- the same statement for the decoder's natural input, the *declared* shape (the imposed one
+    if there is one, else the tensor's) — PARTIAL: `hlay` excludes the class in which some U or
+    B rank was laid out with another extent than the declared one (this happens exactly below a
+    B rank when the imposed extent differs from the tensor's: finding
+    `decode:B-rank-drops-imposed-shape`). -/
+theorem decode_encode_partial (d : Nat) (fs : List Fmt) (tsh : List Nat) (ish : Option (List Nat))
+    (t : List (Int × Tree Int Int d))
+    (hfs : fs.length = d + 1) (hwf : wfB (κ := Int) (ν := Int) (d + 1) t = true)
+    (hin : inShape (d + 1) tsh t = true) (hish : IshOK ish tsh)
+    (hlay : agreeNonC fs (effShape fs tsh ish) (declShape tsh ish) = true) :
+    decodesTo d fs (declShape tsh ish) (encode d fs tsh ish t).root (encode d fs tsh ish t).cs
+      (encode d fs tsh ish t).ps (content (κ := Int) (ν := Int) (0 : Int) (d + 1) t) = true := by
+  have h := decode_encode_eff d fs tsh ish t hfs hwf (inEff_of_inShape (d + 1) fs tsh ish t hin hish)
+  unfold decodesTo at h ⊢
+  rw [← decF_agree d fs _ _ hlay hfs]
+  exact h
+
+/-- without an imposed shape nothing is excluded: every descriptor, every tensor -/
+theorem decode_encode_noshape (d : Nat) (fs : List Fmt) (tsh : List Nat) (t : List (Int × Tree Int Int d))
+    (hfs : fs.length = d + 1) (htsh : tsh.length = d + 1) (hwf : wfB (κ := Int) (ν := Int) (d + 1) t = true)
+    (hin : inShape (d + 1) tsh t = true) :
+    decodesTo d fs tsh (encode d fs tsh none t).root (encode d fs tsh none t).cs
+      (encode d fs tsh none t).ps (content (κ := Int) (ν := Int) (0 : Int) (d + 1) t) = true := by
+  have h := decode_encode_eff d fs tsh none t hfs hwf (inEff_of_inShape (d + 1) fs tsh none t hin trivial)
+  rwa [effShape_none fs tsh (by rw [htsh, hfs])] at h
+
+/-- the 2-rank tensor {(0,1) ↦ 5, (1,1) ↦ 5} -/
+def witnessT : List (Int × Tree Int Int 1) :=
+  [(0, (show Tree Int Int 1 from [((1 : Int), (5 : Int))])), (1, (show Tree Int Int 1 from [((1 : Int), (5 : Int))]))]
+
+/-- … and the excluded class is real: descriptor (B, U), tensor shape [2,2], imposed shape [3,3] —
+    the arrays do not decode under the imposed shape. -/
+theorem decode_imposed_shape_counterexample :
+    decodesTo 1 [.B, .U] (declShape [2, 2] (some [3, 3])) (encode 1 [.B, .U] [2, 2] (some [3, 3]) witnessT).root
+      (encode 1 [.B, .U] [2, 2] (some [3, 3]) witnessT).cs (encode 1 [.B, .U] [2, 2] (some [3, 3]) witnessT).ps
+      (content (κ := Int) (ν := Int) (0 : Int) 2 witnessT) = false := by decide
+
+-- non-vacuity: the hypotheses are satisfiable by non-trivial values (all three formats, an empty
+-- sub-fiber, an explicit zero, an imposed shape larger than the tensor's)
+def sampleT : List (Int × Tree Int Int 2) :=
+  [(0, (show Tree Int Int 2 from [((1 : Int), (show Tree Int Int 1 from [((0 : Int), (7 : Int)), ((2 : Int), (0 : Int))])),
+                                 (2, (show Tree Int Int 1 from []))])),
+   (2, (show Tree Int Int 2 from [((0 : Int), (show Tree Int Int 1 from [((1 : Int), (-3 : Int))]))]))]
+
+example : decodesTo 2 [.C, .B, .U] (effShape [.C, .B, .U] [3, 3, 3] (some [4, 3, 5]))
+    (encode 2 [.C, .B, .U] [3, 3, 3] (some [4, 3, 5]) sampleT).root
+    (encode 2 [.C, .B, .U] [3, 3, 3] (some [4, 3, 5]) sampleT).cs
+    (encode 2 [.C, .B, .U] [3, 3, 3] (some [4, 3, 5]) sampleT).ps
+    (content (κ := Int) (ν := Int) (0 : Int) 3 sampleT) = true :=
+  decode_encode_eff 2 [.C, .B, .U] [3, 3, 3] (some [4, 3, 5]) sampleT (by decide) (by decide) (by decide)
+
+example :=
+  decode_encode_partial 2 [.U, .C, .B] [3, 3, 3] (some [4, 3, 5]) sampleT (by decide) (by decide) (by decide)
+    (by show shapeGe _ _ = true; decide) (by decide)
+
+example :=
+  decode_encode_noshape 2 [.B, .U, .C] [3, 3, 3] sampleT (by decide) (by decide) (by decide) (by decide)
+
+example : (content (κ := Int) (ν := Int) (0 : Int) 3 sampleT).length = 2 := by decide
+
+end Codec
+end Ft
